@@ -215,6 +215,14 @@ structure Ext where
       operation on them is an event) may say that the borrow of a handle is the handle. `none` = stuck. -/
   refMut : Inputs → Value → St → Option Res := fun _ _ _ => Option.none
   -- [threads] end
+  -- [shm] begin: added hook (has a default, so `Ext.none` and every `{ Ext.none with .. }` are unchanged)
+  /-- `let x: *const T = v;` / `let x: *mut T = v;` where `v` is an object of the dictionary: the declared POINTEE
+      type is static information the dynamically typed interpreter does not have; a dictionary whose raw
+      pointers need it (pointer arithmetic `p.add(1)` counts in elements of `T`) may return the pointer
+      retyped.  Consulted only when an object of a dictionary (or a field-less `enumv`) is bound by a `let` WITH a
+      declared type; `none` = the value unchanged. -/
+  letPtr : String → Value → Option Value := fun _ _ => Option.none
+  -- [shm] end
 
 /-- the empty dictionary -/
 def Ext.none : Ext where
@@ -1339,6 +1347,22 @@ def hasMutRefParam : List (Pat × String) → Bool
   | (_, ty) :: rest => if ty.startsWith "&mut" = true then true else hasMutRefParam rest
 -- [poller] end
 
+-- [shm] begin: `let x: *const T = v` (see `Ext.letPtr`)
+/-- the value a `let` with the declared type `ty` binds: an object of the dictionary (or a symbolic name) bound
+    under a declared type may be retyped by the dictionary (`Ext.letPtr`, which matches the raw pointer types it
+    knows); every other value, and every `let` without a declared type, binds the value as it is -/
+def letValue (ext : Ext) (ty : Option String) : Value → Value
+  | .ext tag args =>
+    match ty with
+    | some t => (ext.letPtr t (.ext tag args)).getD (.ext tag args)
+    | none => .ext tag args
+  | .enumv p [] =>
+    match ty with
+    | some t => (ext.letPtr t (.enumv p [])).getD (.enumv p [])
+    | none => .enumv p []
+  | v => v
+-- [shm] end
+
 /-- bind the arguments to the parameter patterns (ascribing the declared types) -/
 def bindParams : Nat → String → List (Pat × String) → List Value → Option (List (String × Value))
   | 0, _, _, _ => none
@@ -1774,7 +1798,8 @@ def evalBlock : Nat → Ctx → Frame → List Stmt → St → Res
       (eval n ctx fr init st).bind fun v st =>
         orStuck "let: value does not fit the declared type" (ascribe (ty.getD "") v) fun v' =>
           -- a plain `let` only accepts irrefutable patterns (compiler-checked): the test is ignored
-          orStuck "let: pattern without a rule" (matchPat n fr.selfTy pat v') fun (_, bs) =>
+          -- [shm] `letValue`: a declared raw-pointer type may retype an object of the dictionary (`Ext.letPtr`)
+          orStuck "let: pattern without a rule" (matchPat n fr.selfTy pat (letValue ctx.ext ty v')) fun (_, bs) =>
             evalBlock n ctx fr rest { st with env := bs ++ st.env }
     | .letS _ _ none _ => .stuck "let without initialiser"
     | .letS pat ty (some init) (some els) =>
